@@ -267,3 +267,8 @@ func lastIndex(s, sub string) int {
 	}
 	return -1
 }
+
+// drvNewStaticReplica starts a node whose static leaser points at a dead primary.
+func drvNewStaticReplica(dir string) (*drv.Node, error) {
+	return drv.NewNode(drv.Config{Dir: dir, Candidate: false, Leaser: litefs.NewStaticLeaser(false, "primary-host", "http://127.0.0.1:1")})
+}
